@@ -90,21 +90,34 @@ def hmOfPtr : Val → Val
   | .hhmmPtr (some t) => .hhmm t
   | _ => .hhmm ⟨0, 0⟩
 
+/-- the `sysdatetime` closure of GetStatus / Listen: the system date and the system time joined and parsed in
+    the process zone again; the zero system date (and a date-time that comes out as the zero instant) gives
+    the zero date-time -/
+def sysDateTime (date time : Val) : Val :=
+  match date, time with
+  | .sysDate (some d), .sysTime t =>
+    if d.y = 1 ∧ d.m = 1 ∧ d.d = 1 ∧ t.h = 0 ∧ t.m = 0 ∧ t.s = 0 then .dateTime none
+    else .dateTime (some ⟨d.y, d.m, d.d, t.h, t.m, t.s⟩)
+  | _, _ => .dateTime none
+
+/-- the zero-valued StatusEvent of a status without an event -/
+def statusNoEvent : List Val := [.u32 0, .u8 0, .bool false, .u8 0, .u8 0, .u32 0, .dateTime none, .u8 0]
+
+/-- the event part of a status: present exactly when the event index is non-zero -/
+def statusEventOf (r : List Val) : List Val :=
+  let g := fun i => r.getD i .none_
+  match g 2 with
+  | .u32 0 => statusNoEvent
+  | _ => [g 2, g 3, g 4, g 5, g 6, g 7, g 8, g 9]
+
 /-- status / event: system date + system time recombined, event present iff index ≠ 0 -/
 def statusResult (r : List Val) : Res :=
   -- r: 0 MsgType 1 Serial 2 EventIndex 3 EventType 4 Granted 5 Door 6 Direction 7 CardNumber 8 Timestamp
   --    9 Reason 10-13 DoorState 14-17 DoorButton 18 SystemError 19 SystemDate 20 SystemTime
   --    21 SequenceId 22 SpecialInfo 23 RelayState 24 InputState
   let g := fun i => r.getD i .none_
-  let sys : Val := match g 19, g 20 with
-    | .sysDate (some d), .sysTime t =>
-      if d.y = 1 ∧ d.m = 1 ∧ d.d = 1 ∧ t.h = 0 ∧ t.m = 0 ∧ t.s = 0 then .dateTime none
-      else .dateTime (some ⟨d.y, d.m, d.d, t.h, t.m, t.s⟩)
-    | _, _ => .dateTime none
-  let ev : List Val := match g 2 with
-    | .u32 0 => [.u32 0, .u8 0, .bool false, .u8 0, .u8 0, .u32 0, .dateTime none, .u8 0]
-    | _ => [g 2, g 3, g 4, g 5, g 6, g 7, g 8, g 9]
-  .vals ([g 1, g 10, g 11, g 12, g 13, g 14, g 15, g 16, g 17, g 18, sys, g 21, g 22, g 23, g 24] ++ ev)
+  .vals ([g 1, g 10, g 11, g 12, g 13, g 14, g 15, g 16, g 17, g 18, sysDateTime (g 19) (g 20), g 21, g 22, g 23, g 24] ++
+    statusEventOf r)
 
 /-- a variadic / slice argument -/
 def list? : Arg → List Nat | .list xs => xs | _ => []
